@@ -111,7 +111,8 @@ MODEL_DOC = {
     "match-attr": "re.Pattern.match/search/fullmatch return None: .group()/.end()/.groups() on it raises AttributeError, m[k] TypeError",
     "assert": "assert raises AssertionError",
     "enum": "Enum(value) raises ValueError for an unknown value",
-    "lookup": "codecs.lookup raises LookupError for an unknown codec name",
+    "nested-def": "a nested `def` whose name has no other binding in the enclosing function is followed like any callee at the places where the enclosing function calls it by name or passes it as an argument (callbacks of re.sub / sorted / map); closures that are returned or stored and called later by someone else are followed from the entry point that calls them, not from here",
+    "lookup": "codecs.lookup raises LookupError for an unknown codec name and, for a non-constant name, ValueError when the name contains a NUL (the C argument converter: 'embedded null character')",
     "to_bytes": "int.to_bytes(1, ...) raises OverflowError for values >= 256",
     "loads": "json.loads raises ValueError (JSONDecodeError)",
     "fromtimestamp": "datetime.fromtimestamp raises OverflowError / OSError / ValueError out of range",
@@ -316,6 +317,8 @@ class Effects:
                     add(n, "next", "StopIteration")
                 elif fq == "codecs.lookup":
                     add(n, "lookup", "LookupError")
+                    if not (n.args and isinstance(n.args[0], ast.Constant)):
+                        add(n, "lookup", "ValueError")
                 elif fq in ("json.loads",):
                     add(n, "loads", "ValueError")
                 elif fq in self.enum_classes and n.args:
@@ -393,6 +396,9 @@ class Effects:
                 # a package function passed as an argument (callback of re.sub, map, sorted key ...) may be called
                 for a in list(n.args) + [k.value for k in n.keywords]:
                     da = dotted(a)
+                    if da and "." not in da and self._nested_def(fi, da) is not None:
+                        out.append((self._nested_def(fi, da), n))
+                        continue
                     if da and not (selfname and da == selfname):
                         fqa = self.repo.resolve(fi.module, da, li)
                         fa = self.repo.try_func(fqa) if fqa and fqa.startswith("werkzeug.") else None
@@ -440,9 +446,28 @@ class Effects:
                     res.append(f)
         return res
 
+    def _nested_def(self, fi: FuncInfo, name: str) -> FuncInfo | None:
+        """the function a bare local name denotes when the only binding of the name in `fi` is one nested `def`
+        (MODEL_DOC["nested-def"]): its body runs, with its own handlers, where the enclosing function calls it or hands
+        it to a callee as a callback."""
+        cache = self.__dict__.setdefault("_nested_cache", {})
+        key = (fi.fq, id(fi.node), name)
+        if key not in cache:
+            defs = [x for x in walk_no_nested(fi.node) if isinstance(x, (ast.FunctionDef, ast.AsyncFunctionDef)) and x.name == name]
+            other = [x for x in walk_no_nested(fi.node) if isinstance(x, ast.Name) and x.id == name and isinstance(x.ctx, (ast.Store, ast.Del))]
+            if len(defs) == 1 and not other and name not in fi.params:
+                cache[key] = FuncInfo(fi.module, defs[0], f"{fi.qualname}.<locals>.{name}", None)
+            else:
+                cache[key] = None
+        return cache[key]
+
     def _resolve_call(self, fi: FuncInfo, n: ast.Call, li, selfname) -> list[FuncInfo]:
         f = n.func
         d = dotted(f)
+        if d is not None and "." not in d:
+            nd = self._nested_def(fi, d)
+            if nd is not None:
+                return [nd]
         if d is None:
             # super().m(...)
             if isinstance(f, ast.Attribute) and isinstance(f.value, ast.Call) and dotted(f.value.func) == "super" and fi.cls is not None:
